@@ -429,6 +429,24 @@ def r_objective_registry(ck: Checker) -> None:
     result list must have been registered there, whichever way it got into the list"""
     func = ck.func(f"{CLS}.execute")
     regs = [c for c in attr_calls(func, "append") if unparse(c.func.value).startswith("minimizes[")]  # type: ignore[attr-defined]
+    # the registry is complete before the first objective is rewritten: whoever fills it does not hand it to the rewrite
+    # from inside the filling loop
+    n_fill = 0
+    for f_ in ck.prg.funcs.values():
+        if not f_.qualname.startswith(f"ngo.{CLS}.") or isinstance(f_.node, ast.Lambda):
+            continue
+        fills = [c for c in attr_calls(f_, "append") if re.match(r"minimizes\[", unparse(c.func.value))]  # type: ignore[attr-defined]
+        for fill in fills:
+            n_fill += 1
+            lp_f = enclosing_loop(f_, fill)
+            while lp_f is not None and enclosing_loop(f_, lp_f) is not None:
+                lp_f = enclosing_loop(f_, lp_f)
+            inside = [c for c in (find_nodes(lp_f, lambda n: isinstance(n, ast.Call)) if lp_f is not None else []) if c is not fill and any(isinstance(a, ast.Name) and a.id == "minimizes" for a in list(c.args) + [k.value for k in c.keywords])]  # type: ignore[attr-defined]
+            ck.add("the objective registry is complete before it is consulted", not inside and lp_f is not None, f_, fill, f"calls that receive `minimizes` inside the loop that fills it: {[short(unparse(c), 60) for c in inside]}",
+                   "the uniqueness test of `_replace_results_in_minimize` must see EVERY objective of the program: filled statement by statement while rewriting, it misses the objectives written later (`#minimize{V@1,P : max(P,V)}. #minimize{2@1,P : flagged(P)}.`) and rewrites a tuple that can coincide with one of them")
+    ck.need(n_fill >= 1, "the class registers objectives in `minimizes`")
+    if len(regs) != 1 and n_fill >= 1:
+        return  # registration moved out of execute: decided by the obligation above
     ck.need(len(regs) == 1, "execute registers objectives in `minimizes` at one site")
     reg = regs[0]
     outs = [c for c in attr_calls(func, "append") + attr_calls(func, "extend") if unparse(c.func.value) == "ret" and enclosing_loop(func, c) is not None]  # type: ignore[attr-defined]
